@@ -26,8 +26,37 @@ def setup_lifted():
     from sx import lift
     lift.install(SX_ROOT)
     import cssutils
-    cssutils.log.setLog(StubLog())
+    global LOGSTUB
+    LOGSTUB = StubLog()
+    cssutils.log.setLog(LOGSTUB)
     return cssutils
+
+
+LOGSTUB = None
+
+
+class CaptureLog:
+    """replay side: capture the levels logged by the unlifted package"""
+
+    def __init__(self, cssutils):
+        import logging
+        self.records = []
+        outer = self
+
+        class H(logging.Handler):
+            def emit(self, record):
+                outer.records.append(record.levelname.lower())
+        self.logger = logging.getLogger('CSSUTILS-VERIF-REPLAY')
+        self.logger.handlers[:] = [H()]
+        self.logger.setLevel(logging.DEBUG)
+        self.logger.propagate = False
+        cssutils.log.setLog(self.logger)
+
+    def clear(self):
+        del self.records[:]
+
+    def problems(self):
+        return [r for r in self.records if r in ('warning', 'error', 'critical')]
 
 
 class StubLog:
